@@ -202,14 +202,14 @@ pub fn explore(ctx: &Ctx) {
     // conventional one: it must sit at its configured depression as well
     let mut jobs3 = vec![];
     for &lat in &[48.0, -48.0, 52.0, 55.0, -55.0, 60.0, -60.0] {
-        for pol in [ExtremeLatitudeMethod::NearestGoodDayFajrIshaInvalid, ExtremeLatitudeMethod::AngleBased, ExtremeLatitudeMethod::SeventhOfNightFajrIshaInvalid, ExtremeLatitudeMethod::NearestLatitudeFajrIshaInvalid(lat_of(45.0))] {
+        for pol in [ExtremeLatitudeMethod::NearestGoodDayFajrIshaInvalid, ExtremeLatitudeMethod::AngleBased, ExtremeLatitudeMethod::SeventhOfNightFajrIshaInvalid, ExtremeLatitudeMethod::NearestLatitudeFajrIshaInvalid(lat_of(45.0)), ExtremeLatitudeMethod::SeventhOfDayFajrIshaInvalid, ExtremeLatitudeMethod::HalfOfNightFajrIshaInvalid, ExtremeLatitudeMethod::MinutesFromMaghribFajrIshaInvalid] {
             for m in [Method::Mwl, Method::Egyptian, Method::Isna] {
                 jobs3.push((Site::new(lat, 25.0, 0.0, 2.0), params(m, pol, RoundSeconds::None)));
             }
         }
     }
     let yd3 = dates_of_years(if quick { &[2024] } else { &YEARS6 });
-    ctx.alphabet("unflagged_times_under_invalid_only_policies", json!({"jobs": jobs3.len(), "lats": [48, -48, 52, 55, -55, 60, -60], "policies": 4, "methods": 3, "dates": yd3.len()}));
+    ctx.alphabet("unflagged_times_under_invalid_only_policies", json!({"jobs": jobs3.len(), "lats": [48, -48, 52, 55, -55, 60, -60], "policies": "all 7 that replace only what is missing", "methods": 3, "dates": yd3.len()}));
     par_jobs(ctx, &jobs3, |(site, p), l| {
         for &d in &yd3 {
             judge(ctx, l, p, *site, d);
